@@ -209,6 +209,9 @@ def pow2(p: Path, t: Any) -> Any:
             p.assume(z3.Implies(t < t2, 2 * r <= r2))
             p.assume(z3.Implies(t2 < t, 2 * r2 <= r))
             p.assume(z3.Implies(t == t2, r == r2))
+            for c in (1, 2, 3, 4, 8, 16, 24, 32):
+                p.assume(z3.Implies(t2 - t == c, r2 == r * (1 << c)))
+                p.assume(z3.Implies(t - t2 == c, r == r2 * (1 << c)))
         for c in (8, 16, 32, 64):
             p.assume(z3.Implies(t == c, r == (1 << c)))
             p.assume(z3.Implies(t <= c, r <= (1 << c)))
